@@ -1,8 +1,48 @@
 import Slu.Model.Ilu
+import Slu.Model.IluFactor
 import SluProofs.Lemmas.Ilu
+import SluProofs.Lemmas.IluFactor
+import SluProofs.Props.C02
 import SluProofs.Props.C14
 /-
 C15 — Incomplete LU never breaks down and is exact when dropping is off.
+
+Two models, two groups of theorems.
+
+(1) The pivot routine `ilu_[sdcz]pivotL` — `iluPivotChoice` / `iluApply` (Slu/Model/Ilu.lean), a bit mirror that
+    is executed against every pivot event of every run: totality (`ilu_pivot_total`, `ilu_pivot_total_complex`),
+    the recorded row, the no-candidate return, `info`; the MC64 glue of `gsisx`; the solve step.
+
+(2) The factorization AS A WHOLE — `iluFactor` (Slu/Model/IluFactor.lean), the column loop of `[sdcz]gsitrf` at
+    specification level in exact arithmetic, written on the pattern of `Slu.LU.luFactor`: eliminate column j by
+    the previous (dropped) L columns, drop from U what the oracle says, accumulate `drop_sum` by MILU mode and
+    damp it, choose the pivot with `iluPivotChoice` (threshold, remembered row, diagonal preference, zero pivot
+    replaced by `fill_tol`, MILU reset), scale; after each column the second oracle zeroes entries of the
+    finished L columns and scales diagonal entries of U (`ilu_[sdcz]drop_row`).  Proved, over any field with a
+    magnitude satisfying `MagLaws` (instances: `Rat`, `Cx Rat`):
+    * `iluFactor_identity_with_error` — for EVERY oracle, `L̃·Ũ = Pr·A·Pc + E` entrywise, `E` being the matrix
+      the model writes from the oracle's choices only (dropped multipliers times their L columns, pivot
+      modification at the pivot position, products of the dropped L entries, diagonal scalings);
+      `iluFactor_error_udrop` gives `E` in closed form when only U entries are dropped;
+    * `iluFactor_nodrop_eq_lu` — oracle drops nothing and no pivot replaced (every MILU mode): pivots, L, U are
+      those of the COMPLETE LU driven by the same policy with `drop_sum = 0`, and `E = 0`;
+      `luFactorIluPivot_eq` — with every candidate row eligible that policy IS `[sdcz]pivotL`
+      (`iluPivotChoice_eq_pivotChoice`: same return value, same pivot row, same reuse flag, singular columns
+      included), hence `iluFactor_nodrop_eq_luFactor`: `iluFactor = luFactor`, and `iluFactor_nodrop_identity`:
+      `Pr·A·Pc = L·U` by C02 — the formal content of "with dropping disabled and no pivot replaced the result
+      meets the complete-LU guarantees";
+    * `iluFactor_udiag_nonzero` (real), `iluFactor_udiag_nonzero_complex` — whenever every column has an eligible
+      candidate row when it is reached, the model never stops and every diagonal entry of Ũ is nonzero
+      (via `ilu_pivot_total`); `iluFactor_udiag_nonzero_full`: this holds when every row is a candidate of every
+      column and eligible and `n ≤ m`.
+    WHAT STAYS AN ORACLE: which entries are dropped — both rules of `ilu_?copy_to_ucol` (tolerance, quota /
+    qselect), both rules of `ilu_?drop_row` (row norms, quota, dynamic tolerances) — and the diagonal factors of
+    drop_row's MILU compensation; the damping factor `omega` is an arbitrary function of the column and the raw
+    sum.  WHAT IS NOT MODELLED: supernodes and relaxed supernodes as storage, panels, the symbolic factorization
+    on the dropped structure, memory expansion, drop_row's contribution `nzp` to `info`.  The tie between
+    `iluFactor` and the C column loop is the output clauses of the differential check (factors well-formed,
+    identity with dropping off, X = solve with the returned factors) plus the pivot-event mirror; there is no
+    event-level correspondence for the dropping steps.
 -/
 namespace Slu.Ilu
 open Slu Slu.Kernels
@@ -251,5 +291,366 @@ theorem ilu_solve_is_LU_solve (F : LUFac K) (permc permr : Array Nat) (tr : Tr) 
     (fun v => gstrsCol_size F permc permr tr v) hld hX
   exact ⟨h.2.1, h.2.2⟩
 end solve
+
+/-! ### the factorization as a whole (`iluFactor`, Slu/Model/IluFactor.lean) -/
+open Slu.LU
+
+section whole
+variable {K : Type} [Field K] [Inhabited K] [Mag K Rat]
+
+/-- **C15 (identity with explicit error).** For EVERY drop oracle (U-dropping, row dropping of L, diagonal
+compensation), every MILU mode, any threshold, pivot replacement or not: whenever the model does not stop,
+`Σ_{k ≤ j} Ũ(k,j) · L̃(i,k) = (Pr A Pc)(i,j) + E(i,j)` for every row and column, exactly, where `E` is the
+matrix the model writes from the oracle's choices only:
+column j is created as `− Σ_{t dropped from U(:,j)} u_tj · L̃(:,t) + (stored pivot − eliminated value) e_(piv j)`
+(`cE`, `cE_get`), and each later row-dropping step subtracts the products `U(t,k) · L(i,t)` of the L entries
+it zeroes and adds `(f_k − 1) · U(k,k) · L̃(:,k)` for the diagonal entries it scales (`lStep`). -/
+theorem iluFactor_identity_with_error (laws : MagLaws K) (F : Flavour K Rat) (P : IluParams K Rat)
+    (drop : DropOracle K) (hcol : ∀ j, (P.col j).size = P.m) (b : Bool)
+    (h : (iluFactor F P drop b).fail = 0) (j : Nat) (hj : j < P.n) (i : Nat) (hi : i < P.m) :
+    ((List.range (j + 1)).map fun k =>
+        ((iluFactor F P drop b).U.getD j #[]).getD k 0 * ((iluFactor F P drop b).L.getD k #[]).get i).sum =
+      (P.col j).get i + ((iluFactor F P drop b).E.getD j #[]).get i := by
+  rw [iluFactor_eq_run] at h ⊢
+  have inv := iluRun_inv laws F P drop hcol b P.n h
+  rw [inv.ident j hj i hi, dotL_prev _ _ (j + 1) i (by rw [Array.length_toList]; exact inv.usize j hj)]
+  congr 1
+  apply List.map_congr_left
+  intro t _
+  congr 1
+  generalize (iluRun F P drop b P.n).U.getD j #[] = a
+  by_cases ht : t < a.size <;> simp [Array.getD, List.getD, ht]
+
+/-- **C15 (the error matrix in closed form, U-dropping only).** When the oracle drops from U only (no row
+dropping of L, no diagonal compensation), column j of `E` is
+`E(i,j) = [i = piv j] · (Ũ(j,j) − w_j(piv j)) − Σ_{t<j} d_j(t) · L̃(i,t)`
+with `w_j` the eliminated column j, `d_j(t) = u_tj` for the dropped positions and 0 elsewhere, and `L̃` the
+FINAL factor: the dropped multipliers times the L columns they belonged to, plus the pivot modification
+(replacement by `fill_tol`, MILU reset) at the pivot position. -/
+theorem iluFactor_error_udrop (laws : MagLaws K) (F : Flavour K Rat) (P : IluParams K Rat)
+    (drop : DropOracle K) (hl : ∀ st j t i, drop.dropL st j t i = false) (hdm : ∀ st j k, drop.diagMul st j k = 1)
+    (hcol : ∀ j, (P.col j).size = P.m) (b : Bool)
+    (h : (iluFactor F P drop b).fail = 0) (j : Nat) (hj : j < P.n) (i : Nat) (hi : i < P.m) :
+    ((iluFactor F P drop b).E.getD j #[]).get i =
+      (if i = (iluFactor F P drop b).piv.getD j 0 then
+          ((iluFactor F P drop b).U.getD j #[]).getD j 0 - (cW P (iluRun F P drop b j) j).get ((iluFactor F P drop b).piv.getD j 0)
+        else 0)
+      - ((List.range j).map fun t =>
+          (dropdU (cUs P (iluRun F P drop b j) j) (cD P drop (iluRun F P drop b j) j)).getD t 0 *
+            ((iluFactor F P drop b).L.getD t #[]).get i).sum := by
+  rw [iluFactor_eq_run] at h ⊢
+  obtain ⟨e1, _, e3, e4⟩ := iluRun_noL_persist F P drop hl hdm laws hcol b P.n h j hj
+  rw [e1, cE_get F P drop _ j i hi, e3, e4]
+  have hj0 := iluRun_fail_le F P drop b P.n j (by omega) h
+  have hj1 := iluRun_fail_le F P drop b P.n (j + 1) (by omega) h
+  have inv := iluRun_inv laws F P drop hcol b j hj0
+  obtain ⟨hs1, hs2, hs3, hs4⟩ := inv.sizes
+  -- the state after column j
+  have hrun : iluRun F P drop b (j + 1) = colStep F P drop (iluRun F P drop b j) j := by
+    rw [iluRun_succ, lStep_noL drop hl hdm]
+  have hcf : (colStep F P drop (iluRun F P drop b j) j).fail = 0 := by rw [← hrun]; exact hj1
+  have hstep := colStep_unfold F P drop (iluRun F P drop b j) j hj0
+  have hgood : cBad F P drop (iluRun F P drop b j) j = false := by
+    cases hb : cBad F P drop (iluRun F P drop b j) j
+    · rfl
+    · rw [hstep, if_pos hb] at hcf; simp at hcf
+  rw [hgood] at hstep
+  simp only [Bool.false_eq_true, if_false] at hstep
+  have huslen : (cUs P (iluRun F P drop b j) j).length = j := by rw [cUs, elim_length, prev_length]
+  have hp : (iluRun F P drop b (j + 1)).piv.getD j 0 = (cOut F P drop (iluRun F P drop b j) j).pivrow := by
+    rw [hrun, hstep]; simp [Array.getD, hs1, Array.getElem_push]
+  have hu : ((iluRun F P drop b (j + 1)).U.getD j #[]).getD j 0 = (cOut F P drop (iluRun F P drop b j) j).pivVal := by
+    rw [hrun, hstep]; simp [Array.getD, hs3, keepU_length, huslen, Array.getElem_push]
+  rw [hp, hu]
+  congr 1
+  rw [dotL_prev _ _ j i (by rw [dropdU_length, huslen])]
+  congr 1
+  apply List.map_congr_left
+  intro t ht
+  have ht' : t < j := List.mem_range.mp ht
+  congr 2
+  exact ((iluRun_noL_persist F P drop hl hdm laws hcol b P.n h t (by omega)).2.1.trans
+    (iluRun_noL_persist F P drop hl hdm laws hcol b j hj0 t ht').2.1.symm).symm
+
+/-- **C15 (dropping disabled, no pivot replaced: the complete LU of the same pivot policy).** Every MILU
+mode.  If the oracle drops nothing, the model did not stop and the policy returned 0 for every column
+(`iinfo = 0`), then pivots, L and U are exactly those of the COMPLETE LU whose pivot is chosen by
+`ilu_[sdcz]pivotL` with `drop_sum = 0` (`luFactorIluPivot`), and the error matrix vanishes identically.
+(`drop_sum` is 0 in every mode when nothing is dropped, the damping multiplies 0, and the MILU reset adds
+`0` resp. `sgn(pivot) * 0`: `FlavourLaws`.) -/
+theorem iluFactor_nodrop_eq_lu (laws : MagLaws K) (F : Flavour K Rat) (hF : FlavourLaws F) (P : IluParams K Rat)
+    (drop : DropOracle K) (hd : DropsNothing drop) (b : Bool)
+    (h : (iluFactor F P drop b).fail = 0) (hi : (iluFactor F P drop b).iinfo = 0) :
+    (iluFactor F P drop b).toLU = luFactorIluPivot F P b ∧
+    ∀ k i, ((iluFactor F P drop b).E.getD k #[]).get i = 0 :=
+  iluRun_dropsNothing laws F hF P drop hd b P.n h hi P.n (le_refl _)
+
+/-- **C15 (the two pivot policies coincide).** When every candidate row is eligible, the complete LU driven
+by `ilu_[sdcz]pivotL` with `drop_sum = 0` IS `Slu.LU.luFactor` (driven by `[sdcz]pivotL`) with the same
+threshold, candidate order, remembered rows and diagonal rows: same pivots, L, U, reuse flag and `info` —
+for every matrix, singular ones included. -/
+theorem luFactorIluPivot_eq (laws : MagLaws K) (F : Flavour K Rat) (hF : FlavourLaws F) (P : IluParams K Rat)
+    (hel : ∀ j r, P.elig j r = true) (b : Bool) : luFactorIluPivot F P b = luFactor P.toLU b :=
+  luFactorIluPivot_eq_luFactor laws F hF P hel b
+
+/-- **C15 (dropping disabled and no pivot replaced = `luFactor`).** -/
+theorem iluFactor_nodrop_eq_luFactor (laws : MagLaws K) (F : Flavour K Rat) (hF : FlavourLaws F) (P : IluParams K Rat)
+    (drop : DropOracle K) (hd : DropsNothing drop) (hel : ∀ j r, P.elig j r = true) (b : Bool)
+    (h : (iluFactor F P drop b).fail = 0) (hi : (iluFactor F P drop b).iinfo = 0) :
+    (iluFactor F P drop b).toLU = luFactor P.toLU b := by
+  rw [(iluFactor_nodrop_eq_lu laws F hF P drop hd b h hi).1, luFactorIluPivot_eq laws F hF P hel b]
+
+/-- **C15 (… hence the complete-LU guarantees).** With dropping disabled and no pivot replaced the returned
+factors satisfy `Pr A Pc = L U` exactly (C02 `luFactor_identity`; the other C02 theorems — unit lower
+triangular L, nonzero diagonal, threshold bound on the multipliers, schedule independence — transfer through
+`iluFactor_nodrop_eq_luFactor` in the same way). -/
+theorem iluFactor_nodrop_identity (laws : MagLaws K) (F : Flavour K Rat) (hF : FlavourLaws F) (P : IluParams K Rat)
+    (drop : DropOracle K) (hd : DropsNothing drop) (hel : ∀ j r, P.elig j r = true) (hP : Legal P.toLU) (b : Bool)
+    (h : (iluFactor F P drop b).fail = 0) (hi : (iluFactor F P drop b).iinfo = 0)
+    (j : Nat) (hj : j < P.n) (i : Nat) (hi' : i < P.m) :
+    (P.col j).get i =
+      ((List.range (j + 1)).map fun k =>
+        ((iluFactor F P drop b).U.getD j #[]).getD k 0 * ((iluFactor F P drop b).L.getD k #[]).get i).sum := by
+  have e := iluFactor_nodrop_eq_luFactor laws F hF P drop hd hel b h hi
+  have hinfo : (luFactor P.toLU b).info = 0 := by rw [← e]; exact h
+  have := luFactor_identity laws P.toLU hP b hinfo j hj i hi'
+  rw [← e] at this
+  exact this
+
+end whole
+
+/-- **C15 (the vector step is what `iluApply` leaves in the column).** `colStep` stores the new L column as a
+vector over all rows; `ilu_[sdcz]pivotL` works on the candidate list (`iluApply`: store the pivot value, interchange
+with position 0, cdiv — mirrored bit for bit against the C routine).  Whenever the policy returns a position `p`
+inside the column whose row it records, position 0 of `iluApply` holds the recorded pivot row with the value that
+becomes `Ũ(j,j)`, and every other position holds a candidate row other than the pivot row together with exactly
+the entry of the new L column at that row (candidate rows pairwise distinct). -/
+theorem ilu_apply_matches_colStep {K : Type} [Field K] [Inhabited K] [Mag K Rat]
+    (P : IluParams K Rat) (piv : Array Nat) (j : Nat) (w : Vec K) (o : PivOut K)
+    (hnd : (P.order j).Nodup) (p : Nat) (hpos : o.pos = some p) (hp : p < (iluCands P piv j w).length)
+    (hrow : ((iluCands P piv j w)[p]! : Cand K).row = o.pivrow) (k : Nat) (e : Cand K)
+    (he : (iluApply (iluCands P piv j w) o)[k]? = some e) :
+    (k = 0 → e.row = o.pivrow ∧ e.val = o.pivVal) ∧
+    (k ≠ 0 → e.row ≠ o.pivrow ∧ e.row ∈ P.order j ∧
+      e.val = Vec.get ((w.setIfInBounds o.pivrow o.pivVal).map (· * (1 / o.pivVal))) e.row) :=
+  iluApply_matches_colStep P piv j w o hnd p hpos hp hrow k e he
+
+/-! #### the scalar flavours satisfy the laws -/
+
+theorem realFlavour_laws : FlavourLaws (realFlavour : Flavour Rat Rat) where
+  ds0 := rfl
+  ofR0 := rfl
+  reset0 := fun v => by simp [realFlavour]
+  rscale0 := fun r => by simp [Mag.rscale]
+
+theorem complexFlavour_laws (t : Cx Rat → Rat) : FlavourLaws (complexFlavour t) where
+  ds0 := rfl
+  ofR0 := rfl
+  reset0 := fun v => by simp [complexFlavour]
+  rscale0 := fun r => by
+    show (⟨(0 : Cx Rat).re * r, (0 : Cx Rat).im * r⟩ : Cx Rat) = 0
+    simp [Cx.zero_def]
+
+/-! #### the diagonal of Ũ -/
+
+/-- in the variants where `drop_sum` is a sum of magnitudes it is non-negative (real routines), provided the
+damping factor is non-negative -/
+theorem cDsum_nonneg_real (P : IluParams Rat Rat) (drop : DropOracle Rat) (st : IluSt Rat) (j : Nat)
+    (homega : ∀ j s, 0 ≤ s → 0 ≤ P.omega j s) (hm : P.milu = Milu.smilu2 ∨ P.milu = Milu.smilu3) :
+    0 ≤ cDsum realFlavour P drop st j := by
+  unfold cDsum dropSumOf
+  simp only []
+  have hraw : 0 ≤ rawSum realFlavour P.milu (droppedVals (cUs P st j) (cD P drop st j)) := by
+    rcases hm with hm | hm <;> rw [hm] <;> simp only [rawSum, realFlavour, id]
+    · exact rabs_nonneg _
+    · apply List.sum_nonneg
+      intro x hx
+      obtain ⟨v, _, rfl⟩ := List.mem_map.mp hx
+      exact rabs_nonneg v
+  exact mul_nonneg hraw (homega j _ hraw)
+
+/-- **C15 (U's diagonal is nonzero).** Real routines, every MILU mode, EVERY drop oracle whose diagonal
+factors are nonzero, any threshold, with or without remembered pivots: if every column has an eligible
+candidate row when it is reached (a row of `order j` that is not yet a pivot row and does not belong to a
+later relaxed supernode), the replacement values are positive, the damping factor is non-negative and the
+candidate rows are rows of the matrix, then the model never stops and every diagonal entry of Ũ is nonzero
+(uses `ilu_pivot_total`). -/
+theorem iluFactor_udiag_nonzero (P : IluParams Rat Rat) (drop : DropOracle Rat) (b : Bool)
+    (hcol : ∀ j, (P.col j).size = P.m)
+    (hrows : ∀ j, ∀ r ∈ P.order j, r < P.m)
+    (hfill : ∀ j, 0 < P.fillTol j)
+    (homega : ∀ j s, 0 ≤ s → 0 ≤ P.omega j s)
+    (hdm : ∀ st j k, drop.diagMul st j k ≠ 0)
+    (hc : ∀ j < P.n, (iluRun realFlavour P drop b j).fail = 0 →
+      ∃ r ∈ P.order j, r ∉ (iluRun realFlavour P drop b j).piv.toList ∧ P.elig j r = true) :
+    (iluFactor realFlavour P drop b).fail = 0 ∧
+    ∀ k < P.n, ((iluFactor realFlavour P drop b).U.getD k #[]).getD k 0 ≠ 0 := by
+  apply iluRun_udiag magLaws_rat realFlavour P drop hcol b hrows hdm _ P.n (le_refl _)
+  intro j hj hf
+  obtain ⟨r, hr, hnp, he⟩ := hc j hj hf
+  set st := iluRun realFlavour P drop b j with hst
+  set inp := iluPivIn P st.piv st.usepr j (cW P st j) (cDsum realFlavour P drop st j) with hinp
+  have hcand := iluCands_elig P st.piv j (cW P st j) r hr hnp he
+  have hout : cOut realFlavour P drop st j = realPivot inp := rfl
+  obtain ⟨p, hpos, hplt, hpv, _⟩ := ilu_pivot_total inp (hfill j)
+    (fun hm => cDsum_nonneg_real P drop st j homega hm) hcand
+  rw [hout]
+  refine ⟨p, hpos, hplt, ?_, hpv⟩
+  exact iluPivotChoice_row_at magLaws_rat inp _ _ _ _ hcand p hpos
+
+theorem exists_free_row (m : Nat) (l : List Nat) (h : l.length < m) : ∃ r < m, r ∉ l := by
+  by_contra hcon
+  simp only [not_exists, not_and, not_not] at hcon
+  have hsub : Finset.range m ⊆ l.toFinset := by
+    intro r hr
+    exact List.mem_toFinset.mpr (hcon r (Finset.mem_range.mp hr))
+  have h1 := Finset.card_le_card hsub
+  have h2 := List.toFinset_card_le l
+  rw [Finset.card_range] at h1
+  omega
+
+/-- every row is a candidate of every column and eligible, `n ≤ m`: the hypothesis `hc` of
+`iluFactor_udiag_nonzero` holds (the first `j < m` pivot rows are distinct rows `< m`, so a free row exists) -/
+theorem iluFactor_udiag_nonzero_full (P : IluParams Rat Rat) (drop : DropOracle Rat) (b : Bool)
+    (hcol : ∀ j, (P.col j).size = P.m)
+    (horder : ∀ j, P.order j = List.range P.m) (hel : ∀ j r, P.elig j r = true) (hnm : P.n ≤ P.m)
+    (hfill : ∀ j, 0 < P.fillTol j)
+    (homega : ∀ j s, 0 ≤ s → 0 ≤ P.omega j s)
+    (hdm : ∀ st j k, drop.diagMul st j k ≠ 0) :
+    (iluFactor realFlavour P drop b).fail = 0 ∧
+    ∀ k < P.n, ((iluFactor realFlavour P drop b).U.getD k #[]).getD k 0 ≠ 0 := by
+  have hrows : ∀ j, ∀ r ∈ P.order j, r < P.m := by
+    intro j r hr; rw [horder] at hr; exact List.mem_range.mp hr
+  apply iluFactor_udiag_nonzero P drop b hcol hrows hfill homega hdm
+  intro j hj hf
+  have inv := iluRun_inv magLaws_rat realFlavour P drop hcol b j hf
+  have hlen : (iluRun realFlavour P drop b j).piv.toList.length = j := by simpa using inv.sizes.1
+  obtain ⟨r, hr, hnot⟩ := exists_free_row P.m _ (by rw [hlen]; omega)
+  exact ⟨r, by rw [horder]; exact List.mem_range.mpr hr, hnot, hel j r⟩
+
+/-- sums of `m + 0i` with `m ≥ 0` -/
+theorem cx_sum_re_nonneg (l : List (Cx Rat)) (h : ∀ z ∈ l, 0 ≤ z.re ∧ z.im = 0) : 0 ≤ l.sum.re ∧ l.sum.im = 0 := by
+  induction l with
+  | nil => simp [Cx.zero_def]
+  | cons a l ih =>
+    obtain ⟨h1, h2⟩ := ih (fun z hz => h z (List.mem_cons_of_mem _ hz))
+    obtain ⟨a1, a2⟩ := h a List.mem_cons_self
+    rw [List.sum_cons, Cx.add_def]
+    exact ⟨add_nonneg a1 h1, by simp [a2, h2]⟩
+
+theorem cDsum_nonneg_complex (t : Cx Rat → Rat) (P : IluParams (Cx Rat) Rat) (drop : DropOracle (Cx Rat))
+    (st : IluSt (Cx Rat)) (j : Nat)
+    (homega : ∀ j s, 0 ≤ P.omega j s) (hm : P.milu = Milu.smilu2 ∨ P.milu = Milu.smilu3) :
+    0 ≤ (cDsum (complexFlavour t) P drop st j).re ∧ (cDsum (complexFlavour t) P drop st j).im = 0 := by
+  unfold cDsum dropSumOf
+  simp only []
+  have hraw : 0 ≤ (rawSum (complexFlavour t) P.milu (droppedVals (cUs P st j) (cD P drop st j))).re ∧
+      (rawSum (complexFlavour t) P.milu (droppedVals (cUs P st j) (cD P drop st j))).im = 0 := by
+    rcases hm with hm | hm <;> rw [hm] <;> simp only [rawSum, complexFlavour]
+    · exact ⟨magLaws_cx.nonneg _, trivial⟩
+    · apply cx_sum_re_nonneg
+      intro z hz
+      obtain ⟨v, _, rfl⟩ := List.mem_map.mp hz
+      exact ⟨magLaws_cx.nonneg v, rfl⟩
+  show 0 ≤ (_ * _ : Rat) ∧ (_ * _ : Rat) = 0
+  exact ⟨mul_nonneg hraw.1 (homega j _), by rw [hraw.2]; ring⟩
+
+/-- **C15 (U's diagonal is nonzero, complex routines).** The same for `ilu_[cz]pivotL`, for every function
+`t` standing for the modulus inside `z_sgn` that is non-negative and vanishes only at zero (uses
+`ilu_pivot_total_complex`). -/
+theorem iluFactor_udiag_nonzero_complex (t : Cx Rat → Rat) (ht0 : ∀ z, 0 ≤ t z) (ht : ∀ z, t z = 0 ↔ z = 0)
+    (P : IluParams (Cx Rat) Rat) (drop : DropOracle (Cx Rat)) (b : Bool)
+    (hcol : ∀ j, (P.col j).size = P.m)
+    (hrows : ∀ j, ∀ r ∈ P.order j, r < P.m)
+    (hfill : ∀ j, 0 < P.fillTol j)
+    (homega : ∀ j s, 0 ≤ P.omega j s)
+    (hdm : ∀ st j k, drop.diagMul st j k ≠ 0)
+    (hc : ∀ j < P.n, (iluRun (complexFlavour t) P drop b j).fail = 0 →
+      ∃ r ∈ P.order j, r ∉ (iluRun (complexFlavour t) P drop b j).piv.toList ∧ P.elig j r = true) :
+    (iluFactor (complexFlavour t) P drop b).fail = 0 ∧
+    ∀ k < P.n, ((iluFactor (complexFlavour t) P drop b).U.getD k #[]).getD k 0 ≠ 0 := by
+  apply iluRun_udiag magLaws_cx (complexFlavour t) P drop hcol b hrows hdm _ P.n (le_refl _)
+  intro j hj hf
+  obtain ⟨r, hr, hnp, he⟩ := hc j hj hf
+  set st := iluRun (complexFlavour t) P drop b j with hst
+  set inp := iluPivIn P st.piv st.usepr j (cW P st j) (cDsum (complexFlavour t) P drop st j) with hinp
+  have hcand := iluCands_elig P st.piv j (cW P st j) r hr hnp he
+  have hout : cOut (complexFlavour t) P drop st j = complexPivot t inp := rfl
+  obtain ⟨p, hpos, hplt, hpv, _⟩ := ilu_pivot_total_complex t ht0 ht inp (hfill j)
+    (fun hm => cDsum_nonneg_complex t P drop st j homega hm) hcand
+  rw [hout]
+  refine ⟨p, hpos, hplt, ?_, hpv⟩
+  exact iluPivotChoice_row_at magLaws_cx inp _ _ _ _ hcand p hpos
+
+/-! #### non-vacuity: a 3×3 matrix, one dropped entry, one replaced pivot -/
+
+def exIluCols : Nat → Vec Rat
+  | 0 => #[4, 2, 1]
+  | 1 => #[1, 3, 1]
+  | _ => #[1, 1, 5]
+
+def exIlu (mi : Milu) : IluParams Rat Rat :=
+  { m := 3, n := 3, col := exIluCols, u := 1 / 10, order := fun _ => [0, 1, 2], oldPiv := fun _ => 0,
+    diagRow := fun j => j, milu := mi, fillTol := fun _ => 1 / 100, elig := fun _ _ => true, omega := fun _ _ => 1 }
+
+theorem exIlu_col (mi : Milu) : ∀ j, ((exIlu mi).col j).size = (exIlu mi).m := by
+  intro j; match j with | 0 => rfl | 1 => rfl | (_ + 2) => rfl
+
+/-- drops `U(0,2)` -/
+def exDropU : DropOracle Rat :=
+  { dropU := fun _ j _ _ t => j == 2 && t == 0, dropL := fun _ _ _ _ => false, diagMul := fun _ _ _ => 1 }
+
+/-- drops `U(0,2)`, and after column 1 drops `L(2,0)` and doubles `U(0,0)` -/
+def exDropUL : DropOracle Rat :=
+  { dropU := fun _ j _ _ t => j == 2 && t == 0, dropL := fun _ j t i => j == 1 && t == 0 && i == 2,
+    diagMul := fun _ j k => if j == 1 && k == 0 then 2 else 1 }
+
+/-- nothing dropped: the ILU model returns the factors of `luFactor`, `E = 0` -/
+example : (iluFactor realFlavour (exIlu .smilu2) noDrop false).piv = (luFactor (exIlu .smilu2).toLU false).piv ∧
+    (iluFactor realFlavour (exIlu .smilu2) noDrop false).L = (luFactor (exIlu .smilu2).toLU false).L ∧
+    (iluFactor realFlavour (exIlu .smilu2) noDrop false).U = (luFactor (exIlu .smilu2).toLU false).U ∧
+    (iluFactor realFlavour (exIlu .smilu2) noDrop false).U = #[#[4], #[1, 5/2], #[1, 1/2, 23/5]] := by
+  decide +kernel
+example : (iluFactor realFlavour (exIlu .smilu2) noDrop false).E = #[#[0, 0, 0], #[0, 0, 0], #[0, 0, 0]] := by
+  decide +kernel
+/-- … and the theorem applies (its hypotheses hold) -/
+example := iluFactor_nodrop_eq_luFactor magLaws_rat realFlavour realFlavour_laws (exIlu .smilu2) noDrop
+  noDrop_dropsNothing (fun _ _ => rfl) false (by decide +kernel) (by decide +kernel)
+
+/-- one dropped entry `u_02 = 1` (SILU): Ũ(:,2) loses it, the error column is `−1 · L̃(:,0)` -/
+example : (iluFactor realFlavour (exIlu .silu) exDropU false).U = #[#[4], #[1, 5/2], #[0, 1/2, 23/5]] ∧
+    (iluFactor realFlavour (exIlu .silu) exDropU false).L = #[#[1, 1/2, 1/4], #[0, 1, 3/10], #[0, 0, 1]] ∧
+    (iluFactor realFlavour (exIlu .silu) exDropU false).E = #[#[0, 0, 0], #[0, 0, 0], #[-1, -1/2, -1/4]] := by
+  decide +kernel
+/-- the same with SMILU_1: the dropped value is added to the pivot (`23/5 + 1`), which shows in `E(2,2)` -/
+example : (iluFactor realFlavour (exIlu .smilu1) exDropU false).U = #[#[4], #[1, 5/2], #[0, 1/2, 28/5]] ∧
+    (iluFactor realFlavour (exIlu .smilu1) exDropU false).E = #[#[0, 0, 0], #[0, 0, 0], #[-1, -1/2, 3/4]] := by
+  decide +kernel
+/-- the identity `L̃Ũ = A + E`, evaluated (every entry), with row dropping and a scaled diagonal as well -/
+example : ∀ j < 3, ∀ i < 3,
+    ((List.range (j + 1)).map fun k =>
+        ((iluFactor realFlavour (exIlu .smilu1) exDropUL false).U.getD j #[]).getD k 0 *
+          ((iluFactor realFlavour (exIlu .smilu1) exDropUL false).L.getD k #[]).get i).sum =
+      ((exIlu .smilu1).col j).get i + ((iluFactor realFlavour (exIlu .smilu1) exDropUL false).E.getD j #[]).get i := by
+  decide +kernel
+example : (iluFactor realFlavour (exIlu .smilu1) exDropUL false).E = #[#[4, 2, -1], #[0, 0, -1/4], #[-1, -1/2, 1]] := by
+  decide +kernel
+/-- … which is what the theorem says (hypothesis: the model did not stop) -/
+example := iluFactor_identity_with_error magLaws_rat realFlavour (exIlu .smilu1) exDropUL (exIlu_col _) false
+  (by decide +kernel)
+
+/-- a zero column: the pivot is replaced by `fill_tol = 1/100`, `iinfo = 1`, the diagonal stays nonzero and
+the replacement is the only entry of `E` -/
+def exIluZ : IluParams Rat Rat := { exIlu .silu with col := fun j => if j = 1 then #[0, 0, 0] else exIluCols j }
+
+example : (iluFactor realFlavour exIluZ noDrop false).iinfo = 1 ∧ (iluFactor realFlavour exIluZ noDrop false).fail = 0 ∧
+    (iluFactor realFlavour exIluZ noDrop false).U = #[#[4], #[0, 1/100], #[1, 1/2, 19/4]] ∧
+    (iluFactor realFlavour exIluZ noDrop false).E = #[#[0, 0, 0], #[0, 1/100, 0], #[0, 0, 0]] := by
+  decide +kernel
+/-- the hypotheses of `iluFactor_udiag_nonzero_full` hold for it -/
+example := iluFactor_udiag_nonzero_full exIluZ exDropUL false
+  (by intro j; match j with | 0 => rfl | 1 => rfl | (_ + 2) => rfl)
+  (fun _ => rfl) (fun _ _ => rfl) (by decide) (fun _ => by norm_num [exIluZ, exIlu])
+  (fun _ _ _ => by norm_num [exIluZ, exIlu]) (fun _ j k => by simp only [exDropUL]; split <;> norm_num)
 
 end Slu.Ilu
